@@ -714,9 +714,12 @@ func main() {
 			if r.Thorough() || near[s] || at[s] {
 				specs = append(specs, runSpec{hn, s, nil})
 			}
+			first := true
 			for _, k := range ks {
-				if k > s && (r.Thorough() || near[s]) {
+				// quick: only the next change after s and the last change of the history
+				if k > s && (r.Thorough() || (near[s] && (first || k == cps[len(cps)-1]))) {
 					specs = append(specs, runSpec{hn, s, []int{k}})
+					first = false
 				}
 			}
 			if r.Thorough() {
@@ -832,7 +835,7 @@ func main() {
 		"admission looks at the listed public keys only (signatures are checked by the stateless validator before pooling): forged claims are counted",
 		"the only state the driver touches is the refresh stamp lastTime (the wall-clock seam); every run is a fresh child process carried across the whole history")
 	r.Finish(map[string]any{
-		"rule":        fmt.Sprintf("%d runs, each a fresh node process carried over a governance history on its own real ledger (2 long histories + %d list-shape histories [together: every removal / registration request list of length 1..3 over {r1,r3,r2=never registered} in every order, duplicates included, each with nobody / r1 registered (registration) and r1,r3 registered / r1 already removed (removal); registry reference = model of the approved requests], %d points in all: A register+approve r1, remove+approve, re-add r1+r3, remove r3, candidate joins, commitDpos, validator quits, commitDpos; B removal approved before the registration reaches quorum, registration completes, both removed, validator blacklisted): (start point s, refresh points R) with R={} or {k>s}: quick s in {0, right before / at each registry or pool change} and k over the change points; thorough all s, all k and all pairs of change points; at every point >= s the process submits %d signer sets (all subsets <=2 of {r1,r2,validator,operator,outsider} in both orders + r3,c1,v4,later operators + 4 forged) x sender {peer, rpc} without refresh, at s and at the points of R also with a refresh before every submission; oracle admitted => some signer registered now or in the peer pool now", done, len(miniNames), points, len(e.probes)),
+		"rule":        fmt.Sprintf("%d runs, each a fresh node process carried over a governance history on its own real ledger (2 long histories + %d list-shape histories [together: every removal / registration request list of length 1..3 over {r1,r3,r2=never registered} in every order, duplicates included, each with nobody / r1 registered (registration) and r1,r3 registered / r1 already removed (removal); registry reference = model of the approved requests], %d points in all: A register+approve r1, remove+approve, re-add r1+r3, remove r3, candidate joins, commitDpos, validator quits, commitDpos; B removal approved before the registration reaches quorum, registration completes, both removed, validator blacklisted): (start point s, refresh points R) with R={} or {k>s}: quick s in {0, right before / at each registry or pool change} and k in {next change after s, last change}; thorough all s, all k and all pairs of change points; at every point >= s the process submits %d signer sets (all subsets <=2 of {r1,r2,validator,operator,outsider} in both orders + r3,c1,v4,later operators + 4 forged) x sender {peer, rpc} without refresh, at s and at the points of R also with a refresh before every submission; oracle admitted => some signer registered now or in the peer pool now", done, len(miniNames), points, len(e.probes)),
 		"states":      states,
 		"transitions": transitions, "traces_validated_against_impl": done,
 		"max_depth": points,
